@@ -9,7 +9,9 @@ into OpenType fonts and let HarfBuzz and FreeType draw both (FreeType enforces t
 limit and, on the bare CFF table, reports the charstring width).
 """
 import io
+import os
 import random
+import re as _re
 
 from vmon import hooks, probes, corpus
 from vmon.case import LibRaised
@@ -127,6 +129,7 @@ def _errclass(e):
 
 
 def _tok_json(toks, limit=400):
+    limit = max(limit, int(os.environ.get("VMON_C12_WITNESS_TOKENS", "0")))
     out = []
     for t in list(toks)[:limit]:
         out.append(t.hex() if isinstance(t, (bytes, bytearray)) else t)
@@ -306,7 +309,7 @@ def judge(op, before, after, mode, limit, tol=1e-6, wit=None, extra=None, width=
     n = 0
     for i, (b, a) in enumerate(zip(before, after)):
         if isinstance(b, str):
-            _note("precondition.before-not-executable:" + b[:48])
+            _note("precondition.before-not-executable:" + _re.sub(r"\d+", "N", b)[:48])
             continue
         n += 1
         w = dict(wit or {})
@@ -1097,9 +1100,13 @@ def cases(tier, seed):
     if not T:
         byp = {r["path"]: r for r in recs}
         recs = [byp[p] for p in QUICK_FONTS if p in byp]
-    for r in recs:
+    for ri, r in enumerate(recs):
         big = r.get("numGlyphs", 0) > 1000
-        for op in FONT_OPS:
+        ops = FONT_OPS
+        if "/aots/" in r["path"] and r["path"] != "ttLib/tables/data/aots/base.otf":
+            # 200 layout-test fonts sharing one set of outlines: two rewrites each, rotating
+            ops = [FONT_OPS[ri % 6], FONT_OPS[(ri + 3) % 6]]
+        for op in ops:
             add("font", path=r["path"], op=op, **({"timeout": 600, "single": not T} if big else {}))
         ng = r.get("numGlyphs", 0)
         step = 250 if T else 600
@@ -1284,7 +1291,7 @@ def _render_batch(ctx, items, cff2, blend, op="prog", widths=(333, 500)):
         try:
             pen = RecPen()
             css[name].draw(pen)
-            if not same_fill(pen.value, it["ref"].path, 1e-6)[0]:
+            if not same_fill(pen.value, it["ref"].path, max(1e-6, (it["ref"].n_fraction + 1) * 2.0 ** -16))[0]:
                 ctx.note("xcheck.fonttools-extractor-differs")
             else:
                 ctx.note("xcheck.fonttools-extractor-agrees")
@@ -1302,7 +1309,7 @@ def _render_batch(ctx, items, cff2, blend, op="prog", widths=(333, 500)):
             if isinstance(ref, str):
                 continue
             ho = r.hb_outline(it["gid"])
-            tol = 1e-6 if (_all_int(ho) and not loc) else 2 * _ulp32(_maxabs(ho)) + 1e-6
+            tol = 1e-6 if (ref.n_fraction == 0 and not loc) else 2 * _ulp32(_maxabs(ho)) + (ref.n_fraction + 1) * 2.0 ** -16
             if not same_fill(ref.path, ho, tol)[0]:
                 ctx.inconclusive("oracle disagreement t2ref/HarfBuzz on %r" % _tok_json(it["orig"], 60))
                 it["bad"] = True
@@ -1319,7 +1326,19 @@ def _render_batch(ctx, items, cff2, blend, op="prog", widths=(333, 500)):
             def wit(label):
                 it, v = by_label[label]
                 return {"before": _tok_json(it["orig"]), "after": _tok_json(v[1]), "location": loc}
-            render_compare(ctx, "%s:%s" % (op, mode), r, r, sub, mode=mode, variable=bool(loc), witness=wit)
+            def diag(g0, g1, _cache={}):
+                # mechanism discriminator: is the rewritten charstring over-deep for its format?
+                if g1 not in _cache:
+                    out = {}
+                    for it, v, gid in index:
+                        if gid == g1:
+                            rr = _ref(v[1], cff2, blend)
+                            if not isinstance(rr, str) and rr.max_stack > (513 if cff2 else 48):
+                                out["cause"] = "stack@%s" % rr.max_stack_op
+                            break
+                    _cache[g1] = out
+                return _cache[g1]
+            render_compare(ctx, "%s:%s" % (op, mode), r, r, sub, mode=mode, variable=bool(loc), witness=wit, diag=diag)
     if not cff2:
         bw = bare_widths(data)
         if bw:
@@ -1387,6 +1406,18 @@ def drv_long(case, rnd, ctx):
             blend = True
             p = GP.blendify(rnd, p, len(VARDATA[0]), pblend=rnd.choice([0.02, 0.1, 0.5]))
         items.append((p, blend))
+    if cff2:
+        # directed: plain rrcurveto run + one curve whose last operand is blended + an hv curve (the pair
+        # (rrcurveto, hvcurveto) takes the specialiser's no-merge shortcut); sized around the 513 limit
+        k = len(VARDATA[0])
+        for ncurves in (83, 84, 85, 86):
+            g = GP.G(rnd, "int", 0.0, True)
+            p = g.moveto(True)
+            for _ in range(ncurves):
+                p += g.vec("r") + [g.d("x", False), g.d("y", False)] + g.vec("r") + ["rrcurveto"]
+            p += g.vec("r") + [g.d("x", False), g.d("y", False), g.d("x", False), g.d("y", False)] + [rnd.choice([1, -5, 40])] * k + [1, "blend", "rrcurveto"]
+            p += [g.d("x", False), 0, g.d("x", False), g.d("y", False), 0, g.d("y", False), "rrcurveto"]
+            items.append((p, True))
     for blend in (False, True):
         batch = []
         for p, b in items:
@@ -1729,7 +1760,7 @@ def _gfont_build(case, rnd, ctx):
                 shared.append((idxs, skip, npre - skip))
     pad = case.get("pad", 0)
     sp, local, glob = GP.subroutinize(rnd, progs, cff2=cff2, max_depth=rnd.choice([1, 2, 3, 5]),
-                                      pad_local=pad if rnd.random() < 0.5 else 0, pad_global=pad, shared=shared)
+                                      pad_local=pad if case["part"] % 8 == 3 else 0, pad_global=pad, shared=shared)
     for i, q in enumerate(sp):
         r = _ref(q, cff2, blend, lsubrs=local, gsubrs=glob)
         if isinstance(r, str) or r.errors or r.path != refs[i].path or r.width != refs[i].width:
@@ -1756,17 +1787,27 @@ def _gfont_build(case, rnd, ctx):
     h = Renderer(data0)
     for i, r in enumerate(refs):
         ho = h.hb_outline(i + 1)
-        if not same_fill(r.path, ho, 1e-6 if _all_int(ho) else 2 * _ulp32(_maxabs(ho)) + 1e-6)[0]:
+        if not same_fill(r.path, ho, 1e-6 if r.n_fraction == 0 else 2 * _ulp32(_maxabs(ho)) + (r.n_fraction + 1) * 2.0 ** -16)[0]:
             ctx.inconclusive("oracle disagreement t2ref/HarfBuzz on generated font glyph %d" % (i + 1))
             return None
     return data0, sp, local, glob, shared, cff2, dialect
+
+
+def _plain_sfnt(rel):
+    data = corpus.font_bytes(rel)
+    if data[:4] in (b"wOFF", b"wOF2"):
+        with hooks.quiet():
+            f = corpus.open_bytes(data)
+            f.flavor = None
+            data = corpus.save_bytes(f)
+    return data
 
 
 def drv_font(case, rnd, ctx):
     rel, op = case["path"], case["op"]
     try:
         with ctx.lib("load-corpus-font"):
-            data0 = corpus.font_bytes(rel)
+            data0 = _plain_sfnt(rel)
     except LibRaised:
         return
     bad = _malformed_glyphs(data0)
@@ -1790,7 +1831,7 @@ def drv_fontcs(case, rnd, ctx):
     from fontTools.ttLib import TTFont
     from fontTools.cffLib import specializer as S
     rel = case["path"]
-    data_in = corpus.font_bytes(rel)
+    data_in = _plain_sfnt(rel)
     font = TTFont(io.BytesIO(data_in), recalcTimestamp=False, recalcBBoxes=False)
     tag = "CFF2" if "CFF2" in font else "CFF "
     cff2 = tag == "CFF2"
@@ -1878,3 +1919,17 @@ def drv_widths(case, rnd, ctx):
             ws.append(max(0, w))
         arg = ws if rnd.random() < 0.7 else {w: ws.count(w) for w in set(ws)}
         _try(ctx, "optimizeWidths", optimizeWidths, arg)
+
+
+def coverage_extra(results):
+    groups = {}
+    for r in results:
+        for k in r.get("keys", []):
+            g = k.split("|")[0] if "|" in k else "(hashed)"
+            groups.setdefault(g, set()).add(k)
+    return {
+        "nontrivial_by_rewrite": {g: len(v) for g, v in sorted(groups.items())},
+        "emitted_forms_after_specialisation": sorted(k.split("|", 1)[1] for k in groups.get("spec", ()))[:120],
+        "oracle_layers": ["t2ref (TN5177 machine) in every post-condition", "HarfBuzz + FreeType on fonts wrapping before/after",
+                          "FreeType on the bare CFF table for charstring widths", "fontTools T2OutlineExtractor as cross-check (observed.xcheck.*)"],
+    }
